@@ -44,6 +44,21 @@ func NewFloat(typ *types.FloatType, x float64) *Float {
 	return &Float{Typ: typ, X: big.NewFloat(x)}
 }
 
+// roundToHalf returns the half precision floating-point number nearest to x
+// (ties to even; infinity beyond the range of half).
+func roundToHalf(x float64) *big.Float {
+	const precision = 11
+	switch abs := math.Abs(x); {
+	case abs >= 65520:
+		// 65520 is the smallest value which rounds to infinity.
+		return new(big.Float).SetPrec(precision).SetInf(math.Signbit(x))
+	case abs < 0x1p-14:
+		// Subnormal range of half; multiples of 2^-24.
+		x = math.RoundToEven(x*0x1p24) * 0x1p-24
+	}
+	return new(big.Float).SetPrec(precision).SetFloat64(x)
+}
+
 // NewFloatFromString returns a new floating-point constant based on the given
 // floating-point type and floating-point string.
 //
@@ -187,12 +202,10 @@ func NewFloatFromString(typ *types.FloatType, s string) (*Float, error) {
 					}
 					return f, nil
 				}
-				c := big.NewFloat(f16)
-				const precision = 11
-				c.SetPrec(precision)
+				// A double which is not a half is rounded to the nearest half.
 				return &Float{
 					Typ: typ,
-					X:   c,
+					X:   roundToHalf(f16),
 				}, nil
 			case types.FloatKindFloat:
 				// ref: https://groups.google.com/d/msg/llvm-dev/IlqV3TbSk6M/27dAggZOMb0J
@@ -214,7 +227,9 @@ func NewFloatFromString(typ *types.FloatType, s string) (*Float, error) {
 					}
 					return f, nil
 				}
-				x := big.NewFloat(f32)
+				// A double which is not a float is rounded to the nearest float
+				// (infinity beyond the range of float).
+				x := big.NewFloat(float64(float32(f32)))
 				const precision = 24
 				x.SetPrec(precision)
 				return &Float{Typ: typ, X: x}, nil
@@ -251,9 +266,11 @@ func NewFloatFromString(typ *types.FloatType, s string) (*Float, error) {
 			x = big.NewFloat(f64).SetPrec(precision)
 		}
 		// A literal above the range of half denotes infinity (65520 is the
-		// smallest value which rounds to infinity).
-		if !x.IsInf() && new(big.Float).Abs(x).Cmp(big.NewFloat(65520)) >= 0 {
-			x.SetInf(x.Signbit())
+		// smallest value which rounds to infinity), a literal in the subnormal
+		// range of half is rounded to a subnormal half.
+		if !x.IsInf() {
+			f64, _ := x.Float64()
+			x = roundToHalf(f64)
 		}
 		c := &Float{
 			Typ: typ,
@@ -271,9 +288,11 @@ func NewFloatFromString(typ *types.FloatType, s string) (*Float, error) {
 		if f64, err := strconv.ParseFloat(s, 64); err == nil || math.IsInf(f64, 0) {
 			x = big.NewFloat(f64).SetPrec(precision)
 		}
-		// A literal above the range of float denotes infinity.
-		if f64, _ := x.Float64(); !x.IsInf() && math.IsInf(float64(float32(f64)), 0) {
-			x.SetInf(x.Signbit())
+		// A literal above the range of float denotes infinity, a literal in the
+		// subnormal range of float is rounded to a subnormal float.
+		if !x.IsInf() {
+			f64, _ := x.Float64()
+			x = big.NewFloat(float64(float32(f64))).SetPrec(precision)
 		}
 		c := &Float{
 			Typ: typ,
